@@ -73,7 +73,10 @@ class SpecEvalMixin:
         if isinstance(v, VPy):
             return TRUE
         if isinstance(v, VAny):
-            raise Unsupported("truthiness of an opaque value")
+            # truthiness of an opaque value: an uninterpreted predicate of the token (nothing is known about it)
+            self.decls.fun("any_truthy", [INT], BOOL)
+            from .smt import app as _app
+            return _app("any_truthy", BOOL, v.t)
         raise Unsupported(f"truthiness of {v!r}")
 
     def is_none_term(self, v: Value) -> T:
@@ -583,4 +586,8 @@ class SpecEvalMixin:
             return has
         if isinstance(v, VAny) and "hasattr_opaque" in self.reg.specfns:
             return self.reg.specfns["hasattr_opaque"](self, st, v, attr)
+        if isinstance(v, VAny):
+            self.decls.fun("any_hasattr", [INT, STR], BOOL)
+            from .smt import app as _app
+            return _app("any_hasattr", BOOL, v.t, self.decls.str_lit(attr))
         raise Unsupported(f"hasattr on {v!r}")
